@@ -308,8 +308,26 @@ class Interp:
         if isinstance(st.value, ast.Constant):
             return      # docstring
         if self.is_dropped_call(st.value, fr):
+            self.eval_dropped_args(st.value, fr)
             return
         self.eval(st.value, fr)
+
+    def eval_dropped_args(self, e, fr):
+        """The CALL of a logging / print function is dropped, but Python evaluates its argument expressions first and those
+        can raise (an attribute that does not exist, a key that is missing): evaluate them for their exceptions.  Arguments
+        the engine has no rule for are skipped (assumed not to raise; listed as an assumption)."""
+        if self.spec_mode:
+            return
+        for a in list(e.args) + [k.value for k in e.keywords]:
+            if isinstance(a, ast.Constant):
+                continue
+            self.path.no_fork = getattr(self.path, 'no_fork', 0) + 1
+            try:
+                self.eval(a.value if isinstance(a, ast.Starred) else a, fr)
+            except (OutOfSubset, EngineError, Budget):
+                self.note_assumption('an argument expression of a dropped logging/print call could not be evaluated and is assumed not to raise')
+            finally:
+                self.path.no_fork -= 1
 
     def is_dropped_call(self, e, fr=None):
         if isinstance(e, ast.Call):
@@ -827,7 +845,7 @@ class Interp:
                 return x
             return GenIter(nxt)
         if isinstance(v, PSet):
-            return self.get_iter(tuple(v.items))
+            return self.get_iter(tuple(self.set_order(v)))
         if isinstance(v, RangeVal):
             if not isinstance(v.step, int) or v.step == 0:
                 raise OutOfSubset('range step')
@@ -870,6 +888,30 @@ class Interp:
         if v is None or is_number(v):
             self.raise_py('TypeError', "'%s' object is not iterable" % self.type_name(v))
         raise OutOfSubset('iteration over %r' % (v,))
+
+    def set_order(self, v):
+        """iteration order of a set: unspecified in Python (hash order; for str it changes from process to process), so every
+        permutation is explored - the environment chooses"""
+        items = list(v.items)
+        if len(items) < 2:
+            return items
+        if len(items) > 4:
+            raise OutOfSubset('iteration over a set of %d elements (order unspecified; more than 24 permutations)' % len(items))
+        import itertools
+        perms = list(itertools.permutations(range(len(items))))
+        self.nondet_counter = getattr(self, 'nondet_counter', 0) + 1
+        t = z3.Int('setorder!%d' % self.nondet_counter)
+        self.path.assume(z3.And(t >= 0, t < len(perms)))
+        if not hasattr(self, 'env_nondet'):
+            self.env_nondet = []
+        self.env_nondet.append('iteration order of a set')
+        self.note_assumption('sets are iterated in every possible order (24 at most)')
+        chosen = perms[-1]
+        for i in range(len(perms) - 1):
+            if self.path.decide(t == i):
+                chosen = perms[i]
+                break
+        return [items[k] for k in chosen]
 
     def iterate_all(self, v):
         if isinstance(v, (tuple, PBytes)) or (isinstance(v, (PList, PBytearray))):
@@ -1126,6 +1168,7 @@ class Interp:
 
     def ex_Call(self, e, fr):
         if self.is_dropped_call(e, fr):
+            self.eval_dropped_args(e, fr)
             return None
         # super()
         if isinstance(e.func, ast.Name) and e.func.id == 'super':
@@ -1227,6 +1270,9 @@ class Interp:
         if isinstance(o, Ext):
             if name in o.attrs:
                 return o.attrs[name]
+            if name.startswith('__') and name.endswith('__'):
+                # as the native stub (a callable object / functools.partial-like callback has no __name__, __qualname__ ...)
+                self.raise_py('AttributeError', "'%s' object has no attribute '%s'" % (o.name, name))
             if o.auto:
                 child = Ext(o.name + '.' + name, returns=_sub_returns(o.returns, name))
                 child.parent = o
